@@ -238,6 +238,11 @@ def expected_endpoints(spec, typ, svc, binding):
 
 
 def evaluate(fed):
+    with env.in_zone(env.zone_of(fed[0])):
+        return _evaluate(fed)
+
+
+def _evaluate(fed):
     from saml2_tophat.mdstore import UnknownSystemEntity
     from saml2_tophat.s_utils import UnsupportedBinding
     name, docs = fed
@@ -499,7 +504,7 @@ def run(ctx):
             'rule': 'federation document sets: every entity of a 7-entity alphabet (IdP with signing+encryption keys, SP with ACS indexes/requested attributes/entity category, AA with use-less key, entity with validUntil past / future, SAML1-only entity, dual-role entity with different keys per role and a PDP role) alone, wrapped in an EntitiesDescriptor with validUntil absent/past/future, all pairs%s in one document, ordered pairs over two sources, duplicates with different content in both orders and inside one document, an expired document followed by a good one%s; every query tuple (8 entity ids incl. unknown) x 7 (role, service) x 5 bindings, certs(descriptor x use), entity categories, attribute requirements, provider listing; 30 signed-metadata cases (signature state x loader certificate x EntityDescriptor/EntitiesDescriptor); configuration -> generated metadata -> store round trip for SP (with/without encryption key) and IdP' % (' and triples' if ctx.thorough else ' (triples containing the dual-role entity)', ', ordered triples over three sources' if ctx.thorough else ''),
             'samples': [{'federation': feds[len(feds) // 2][0]}],
         },
-        'assumptions': ['reference answers are computed from the generating specification (the declared content)', 'duplicate entityIDs: any one declared version, unmixed, is accepted',
+        'assumptions': ['table cells / federations are evaluated in a process time zone (UTC, UTC+5, UTC-5) chosen as a function of their coordinates: verdicts must not depend on it', 'reference answers are computed from the generating specification (the declared content)', 'duplicate entityIDs: any one declared version, unmixed, is accepted',
                         'accessors on roles an entity lacks: any exception or empty result counts as no data', 'virtual clock decides validUntil'],
     }
 
